@@ -33,8 +33,9 @@ def check(v, tier, seed):
     vlib.write_ndjson(rowf, rows)
     obs = os.path.join(wd, "obs.ndjson")
     nsym = 600 if quick else 12000
-    cmd = "(%s replay %s && %s steps %d %d && %s create %d %d && %s symbols %d %d) > %s" % (
-        exe, rowf, exe, seed, 40 if quick else 800, exe, seed, 400 if quick else 8000, exe, seed, nsym, obs)
+    nshort = 3000000 if quick else 60000000      # very short blocks: about one in 3e5 ends exactly on a boundary of the final-state flush
+    cmd = "(%s replay %s && %s steps %d %d && %s create %d %d && %s symbols %d %d && %s short %d %d) > %s" % (
+        exe, rowf, exe, seed, 40 if quick else 800, exe, seed, 400 if quick else 8000, exe, seed, nsym, exe, seed + 9, nshort, obs)
     rc, out = vlib.run(cmd, timeout=3000)
     if rc != 0:
         raise vlib.Infra("drv_c08 rc=%d %s" % (rc, out[-400:]))
